@@ -5,7 +5,8 @@
 From Coq Require Import ZArith List String Bool.
 From HV Require Import Base.Word Base.SmtBV Model.SexpDefs Gen.GenRefine
   Spec.SmtQuerySpec Model.SmtTextModel Proofs.SmtTextProofs
-  Model.PathCopyDefs Gen.GenPathCopy Model.PathHeapModel Proofs.PathHeapGen.
+  Model.PathCopyDefs Gen.GenPathCopy Model.PathHeapModel Proofs.PathHeapGen
+  Model.DumpFsDefs Gen.GenDumpFs Spec.DumpFsSpec Model.DumpFsModel Proofs.DumpFsProofs.
 Import ListNotations.
 Open Scope Z_scope.
 
@@ -321,3 +322,74 @@ Example C11_nonvacuous :
    | None => False
    end).
 Proof. vm_compute. repeat split; reflexivity. Qed.
+
+(* ---- which bytes the solver process reads.  The query reaches the solver through a FILE:
+   <dump dir>/<path id>[.refined].smt2.  With --dump-smt-directory DIR the dump dir of a function
+   is DIR/<function name> and path ids restart at 0 in every FunctionContext, so the same file
+   name is used again by the same-named test of another contract, by the assertion probes of
+   every invariant depth, by the setUp paths of every contract and by the next run.
+   Gen/GenDumpFs.v (solve.dump, solve.solve_low_level, the two solve_low_level calls of
+   solve.solve_end_to_end, the literals of PathContext.dump_file) is regenerated from solve.py
+   on every run and interpreted by Model/DumpFsModel.v over a file system.
+
+   For EVERY initial content of the file system (stale files of earlier paths / functions /
+   runs under any name), every solver, every refine function and every sequence of
+   solve_end_to_end calls (any directories and path ids - colliding or not -, with and without
+   --cache-solver, already refined or not, any decision to solve again), the solver processes
+   started are exactly those the specification demands (the path's own query; its refinement
+   when the answer to the path's own query asks for it), each on the file of its context, and
+   each READS THE TEXT OF THE QUERY IT IS STARTED FOR *)
+Theorem C11_solver_reads_query_of_the_path_being_solved :
+  forall (slv : solver_t) (rf : string -> string) (fs0 : fsys) (jobs : list job),
+  exists fs1,
+    run_jobs slv rf (fs0, []) jobs =
+      (fs1,
+       map (fun c => mkEv c (full_name c) (reads_of pctx query_text c))
+           (flat_map (fun j => solves_of pctx query_text (refine_ctx rf) slv (j_ctx j) (j_core j) (j_again j)) jobs)).
+Proof. exact solver_reads_path_query. Qed.
+Print Assumptions C11_solver_reads_query_of_the_path_being_solved.
+
+(* one solve_low_level, from any file system and any history: the process reads the current
+   query, and the *.smt2 file left behind is the current query (not more, not a stale one) *)
+Theorem C11_low_level_reads_and_leaves_query :
+  forall (slv : solver_t) (c : pctx) (fs : fsys) (tr : list event),
+  exists fs1,
+    run_low slv c fs tr =
+      (match slv (Some (query_text c)) with Some a => Some (Some a) | None => Some None end,
+       fs1, (tr ++ [mkEv c (full_name c) (Some (query_text c))])%list) /\
+    fs_get fs1 (full_name c) = Some (query_text c).
+Proof. exact low_level_reads_and_leaves_query. Qed.
+Print Assumptions C11_low_level_reads_and_leaves_query.
+
+(* the model distinguishes the protocols the theorem excludes: on a file system that already
+   holds d/check_x/0.smt2, a solve_low_level that dumps only when the file is missing makes the
+   solver read the stale file, and a dump that appends makes it read stale text + query *)
+Example C11_guarded_or_appending_dump_refuted :
+  let c := mkCtx "d/check_x" 0 false false "(assert b)" [] in
+  let stale := [(full_name c, "(assert a)"%string)] in
+  let slv : solver_t := fun _ => Some ("sat"%string, ""%string) in
+  full_name c = "d/check_x/0.smt2"%string /\
+  reads_of_run (run_low_with slv c trunc_dump plain_low stale []) = [Some (query_text c)] /\
+  reads_of_run (run_low_with slv c trunc_dump guarded_low stale []) = [Some "(assert a)"%string] /\
+  reads_of_run (run_low_with slv c append_dump plain_low stale []) = [Some ("(assert a)" ++ query_text c)%string].
+Proof. exact guarded_or_appending_refuted. Qed.
+
+(* non-vacuity: the same-named test of two contracts (same directory, path id 0) after a run
+   that left 0.smt2 and 0.refined.smt2 behind; the first answers ask for refinement: four
+   processes, each reads its own query, the refined ones on 0.refined.smt2; a call answered
+   by a known unsat core starts none *)
+Example C11_dump_protocol_nonvacuous :
+  let a := mkCtx "d/check_x" 0 false false "(declare-fun f_evm_bvudiv_256 ((_ BitVec 256) (_ BitVec 256)) (_ BitVec 256))" [] in
+  let b := mkCtx "d/check_x" 0 false true "(assert b)" ["7"%string] in
+  let rf := fun s : string => ("R" ++ s)%string in
+  let slv : solver_t := fun _ => Some ("sat"%string, ""%string) in
+  let jobs := [mkJob a false (fun _ => true); mkJob b false (fun _ => true); mkJob b true (fun _ => true)] in
+  let stale := [("d/check_x/0.smt2", "(old)"); ("d/check_x/0.refined.smt2", "(old refined)")]%string in
+  map (fun e => (ev_file e, ev_read e)) (snd (run_jobs slv rf (stale, []) jobs)) =
+    [("d/check_x/0.smt2"%string, Some (query_text a));
+     (full_name (refine_ctx rf a), Some (query_text (refine_ctx rf a)));
+     ("d/check_x/0.smt2"%string, Some (query_text b));
+     (full_name (refine_ctx rf b), Some (query_text (refine_ctx rf b)))] /\
+  full_name (refine_ctx rf a) = full_name (refine_ctx rf b) /\
+  query_text a <> query_text b /\ query_text (refine_ctx rf a) <> query_text (refine_ctx rf b).
+Proof. vm_compute. repeat split; try reflexivity; discriminate. Qed.
